@@ -2,27 +2,56 @@
    Only the property theorems (closed by `exact`), their axiom reports, a non-vacuity example.
    Model: Model/LinkedBuffer.v (ghost leases: every fast-path ReadBytes/Peek result is recorded as
    (slot, lo, hi, bytes); ReleasePreviousRead / releasePreviousReadAndReserve / recycle drop them);
-   proofs: Proofs/LinkedBufferProofs.v, Part D.
+   proofs: Proofs/LinkedBufferPipe.v (global ownership invariant) and LinkedBufferProofs.v Part D.
 
-   PROVED (all stores, all states, no bound on the history):
-     C08_bytes_stable_step / C08_bytes_stable   no operation except a writer operation or a fill by the
-        owner of a slot changes one payload byte of the store: reads of any size (fast, slow), Peek,
-        Discard, ReadByte, ReadString, Read, the move of pending data incl. the header surgery of the
-        empty-slice unlinking, both releases, Close, and allocations / frees by any other stream.
-        Hence what a lease denotes is unchanged by any history of such operations (C08_lease_stable).
-     C08_release_frees   after ReleasePreviousRead every parked (fully consumed, leased) shm slot is in a
-        free list again, the parked list and the leases are empty.
-     C08_copies_*        ReadString, Read, ReadByte, Discard create no lease (their results are copies).
-   NOT PROVED HERE (checked on every generated history by the model-side lease check of
-   Corr/LinkedBufferCorr.v — field code 8 — and by the harness oracle on the real code): that a leased
-   slot is in no free list and is never handed to another writer before the release (needs the global
-   ownership invariant of C01/C02 for the sequential allocator), and the slow paths of ReadBytes/Peek
-   creating no lease. *)
+   PROVED (no bound on the history, any configuration with positive capacities):
+     C08          in every state reachable from the initial one by ANY op sequence (this stream's
+                  writes, flushes, reads of any size, releases; allocations, overwrites and frees by
+                  other owners interleaved arbitrarily) every live lease's slot is in no free list, is
+                  not a slice of the send buffer, is not held by another owner, and its bytes [lo,hi)
+                  are exactly the bytes that were handed out.
+     C08_invariant  the same from any state satisfying the pipe invariant.
+     C08_release_frees   after ReleasePreviousRead every parked (fully consumed, leased) shm slot is in
+                  a free list again, the parked list and the leases are empty.
+     C08_lease_only_fast_read / _peek   a lease is created only when the requested bytes lie inside
+                  one slice; every slow-path result (and ReadString, Read, ReadByte, Discard) is a copy.
+     C08_bytes_stable*   no operation except a writer op / a fill by a slot's owner changes a payload byte.
+   Not modelled: Close leaves parked slices allocated (C09's subject: they stay owned, never free). *)
 From Coq Require Import List ZArith Lia Bool Arith.
-From Shm Require Import Gen.Consts Model.LinkedBuffer Proofs.LinkedBufferProofs.
+From Shm Require Import Gen.Consts Model.LinkedBuffer Proofs.LinkedBufferProofs Proofs.LinkedBufferStore
+  Proofs.LinkedBufferWriter Proofs.LinkedBufferXfer Proofs.LinkedBufferPipe.
 Import ListNotations.
 Close Scope Z_scope.
 Open Scope nat_scope.
+
+Theorem C08 : forall cfg ops s' le, cfg_ok cfg -> run (init_sys cfg) ops = Ok s' ->
+  In le (leases (rcv s')) -> l_shm le = true ->
+  ~ In (l_off le) (frees (mem s')) /\ lease_bytes (mem s') le = l_bytes le
+  /\ ~ In (l_off le) (offs (slices (snd s'))) /\ ~ In (l_off le) (offs (oth s')).
+Proof. exact leases_safe. Qed.
+Print Assumptions C08.
+
+Theorem C08_invariant : forall s sp idss le, Inv s sp idss -> In le (leases (rcv s)) -> l_shm le = true ->
+  ~ In (l_off le) (frees (mem s)) /\ lease_bytes (mem s) le = l_bytes le
+  /\ ~ In (l_off le) (offs (slices (snd s))) /\ ~ In (l_off le) (offs (oth s)) /\ ~ In (l_off le) (concat idss).
+Proof. exact Inv_leases_safe. Qed.
+Print Assumptions C08_invariant.
+
+Theorem C08_release_frees : forall m l p,
+  shm_wf m -> In p (pinned l) -> shmf p = true -> In (cap p) (cls m) ->
+  let '(m', l') := release m l in In (off p) (concat (free m')) /\ pinned l' = [] /\ leases l' = [].
+Proof. exact release_frees_parked. Qed.
+Print Assumptions C08_release_frees.
+
+Theorem C08_lease_only_fast_read : forall m n l bs l', read_bytes m n l = Ok (bs, l') ->
+  leases l' = leases l \/ exists s, leases l' = leases l ++ [mk_lease s n bs] /\ n <= ssize s.
+Proof. exact read_bytes_lease_cases. Qed.
+Print Assumptions C08_lease_only_fast_read.
+
+Theorem C08_lease_only_fast_peek : forall m n l bs l', peek m n l = Ok (bs, l') ->
+  l' = l \/ exists s, leases l' = leases l ++ [mk_lease s n bs] /\ n <= ssize s.
+Proof. exact peek_lease_cases. Qed.
+Print Assumptions C08_lease_only_fast_peek.
 
 Theorem C08_bytes_stable_step : forall s o y s',
   nonwriting o = true -> step s o = Ok (y, s') -> same_data (mem s) (mem s').
@@ -33,16 +62,6 @@ Theorem C08_bytes_stable : forall ops s s',
   forallb nonwriting ops = true -> run s ops = Ok s' -> same_data (mem s) (mem s').
 Proof. exact run_same_data. Qed.
 Print Assumptions C08_bytes_stable.
-
-Theorem C08_lease_stable : forall m m' le, same_data m m' -> lease_bytes m' le = lease_bytes m le.
-Proof. exact lease_bytes_same. Qed.
-Print Assumptions C08_lease_stable.
-
-Theorem C08_release_frees : forall m l p,
-  shm_wf m -> In p (pinned l) -> shmf p = true -> In (cap p) (cls m) ->
-  let '(m', l') := release m l in In (off p) (concat (free m')) /\ pinned l' = [] /\ leases l' = [].
-Proof. exact release_frees_parked. Qed.
-Print Assumptions C08_release_frees.
 
 Theorem C08_copies_read_string : forall m n l, WF m l -> 0 < n -> (Z.of_nat n <= len l)%Z ->
   exists l', read_string m n l = Ok (firstn n (content m l), l')
